@@ -419,6 +419,30 @@ func bugMutations() []hostileMut {
 	ms = append(ms, hostileMut{Name: "rule:first-op-not-create", Class: "must-reject", RootOnly: true, Apply: func(h *hostileHistory, at int) {
 		h.Commits[0].Ops[0]["type"] = json.Number("3") // add-comment
 	}})
+	// exactly one create operation, but not in first position (the entity id is then the id of another operation)
+	ms = append(ms, hostileMut{Name: "rule:create-op-not-first", Class: "must-reject", RootOnly: true, Apply: func(h *hostileHistory, at int) {
+		create := h.Commits[0].Ops[0]
+		comment := map[string]any{}
+		for k, v := range create {
+			comment[k] = v
+		}
+		delete(comment, "title")
+		comment["type"] = json.Number("3") // add-comment
+		comment["nonce"] = base64.StdEncoding.EncodeToString([]byte("verif-comment-before-create-0001"))
+		h.Commits[0].Ops = []map[string]any{comment, create}
+	}})
+	ms = append(ms, hostileMut{Name: "rule:create-op-in-later-commit-only", Class: "must-reject", NonRoot: true, Apply: func(h *hostileHistory, at int) {
+		create := h.Commits[0].Ops[0]
+		comment := map[string]any{}
+		for k, v := range create {
+			comment[k] = v
+		}
+		delete(comment, "title")
+		comment["type"] = json.Number("3")
+		comment["nonce"] = base64.StdEncoding.EncodeToString([]byte("verif-comment-before-create-0002"))
+		h.Commits[0].Ops = []map[string]any{comment}
+		h.Commits[at].Ops = append(h.Commits[at].Ops, create)
+	}})
 	ms = append(ms, hostileMut{Name: "rule:op-of-other-author-in-pack", Class: "unclassified", Apply: func(h *hostileHistory, at int) {}})
 	// a perfectly valid history whose root differs from the root of the bug the victim holds under the same id
 	// (same create operation, other clocks): only used with the local situation "unrelated"
